@@ -51,6 +51,15 @@ CHECKS["C19"] = dict(cat="exploration", engine="codec",
    text="(a) every exported wire type decodes structurally corrupted valid encodings (drop/duplicate/retype members, [], [tag], [tag,non-array], unhashable keys, wrong arity, out-of-domain numbers) under recover; (b) corrupted operation lists (missing members, swapped types, unknown tables/columns, zero divisors, member-less commit/comment/assert, empty list) are executed by the in-memory database under recover and followed by a plain select; (c) the same requests go as raw JSON-RPC to a library server running in its own process, each followed by an echo: process death, a dropped connection or a request never answered is the violation, the server is restarted and the run continues; thorough: go test -fuzz on all decoders for a fixed execution count. Known finding: wait without timeout blocks the server.",
    note="Inputs are valid JSON. A request not answered within 20 s (normal < 1 ms) counts as never answered.", ref="4/C19")
 
+CHECKS["C05"] = dict(cat="exploration", engine="cache",
+   technique="structural invariant recomputed from scratch at the end of every batch (index partition = scan partition; lookups = scan under the documented precedence), three drivers, every application order of small batches",
+   text="Index configurations (single/multi-column schema indexes; client indexes on plain, optional, map-key, multi-column and schema-overlapping column sets) x legal state sequences with hand-over batches (swap, rotation, A takes B's value while B takes a fresh one, delete + re-insert under another uuid). Each batch is applied (1) through direct Create/Update/Delete in every permutation of its rows (<= 4 rows, else sampled), (2) through ApplyCacheUpdate with a multi-row ModelUpdates repeated to vary the library's map order, (3) through Populate2 on one long-lived cache; afterwards Index(...) partitions, RowsByModels, RowByModel, client Get and Where(model).List are compared with a scan of Rows() for probes built from present and absent values, with and without uuid. Held = on the batches generated.",
+   note="Client API over a bare cache through the verif-tagged constructor. Map-key indexes treat an absent key as the zero value (mirrors the cache).", ref="4/C05")
+CHECKS["C08"] = dict(cat="exploration", engine="cache",
+   technique="reference-model + differential monitor: brute-force RFC 7047 evaluation vs RowsByCondition under 4-6 index configurations over the same data; conditional API vs conjunction/disjunction; generated operations executed on a database holding the same rows",
+   text="Generated single-table contents (0-12 rows with heavy value sharing) and lists of 1-4 well-typed conditions over all column kinds (empty sets/maps, absent optionals, repeated columns, _uuid conditions, unsatisfiable lists) are evaluated by RowsByCondition under none/schema/multi-column/client/map-key/overlapping index configurations and by the reference; any error on a well-typed condition, any disagreement with the reference or between configurations is a violation. WhereAll/WhereAny List() are compared with conjunction/disjunction, and the Delete() operations they generate are executed on an in-memory database holding the same rows: the rows removed must be the rows listed. Held = on the cases generated.",
+   note="Select through a transaction is covered by C03; Where(model) precedence by C05.", ref="4/C08")
+
 NOT_YET = "check not built yet (work in progress in this round); no claim is made"
 
 def main():
